@@ -6,6 +6,9 @@ Monitor: independent oracle (member.value, the text, str(int), C11's exact-Fract
 length limits and step texts from the property statement)."""
 from __future__ import annotations
 
+from decimal import Decimal
+from fractions import Fraction
+
 import enum
 import json
 import math
@@ -95,7 +98,9 @@ def action_argsets(rng, k):
         return [()]
     if k["k"] == "volstep":
         return [(), (0.5,), (1,), (2,), (5,), (1.0,), (2.0,), (5.0,), (True,), (False,), (3,), (0,), (-1,), (1.5,), (10,), (0.1,),
-                (float("nan"),), (rng.choice([1, 2, 5]) + 0.0,), (rng.uniform(-3, 8),)]
+                (float("nan"),), (rng.choice([1, 2, 5]) + 0.0,), (rng.uniform(-3, 8),),
+                # "whatever numeric type the step is given in": exact decimal / rational types too
+                (Decimal("1.0"),), (Decimal("2.00"),), (Decimal("5"),), (Decimal("0.5"),), (Decimal("3"),), (Fraction(5),), (Fraction(2, 1),), (Fraction(1, 2),)]
     if k["k"] == "mem":
         return [(), (None,), (1,), (40,), (rng.randint(1, 40),)]
     if k["k"] == "scene":
